@@ -115,6 +115,9 @@ Section Curve.
   (* candidate square root for p = 3 mod 4: c^((p+1)/4); the caller checks the square *)
   Definition sqrt_cand (c : bigZ) : bigZ := bpow p c (Z.to_pos ((BigZ.to_Z p + 1) / 4)).
 
+  Definition rhsZ (x : Z) : Z := BigZ.to_Z (rhs (BigZ.of_Z x)).
+  Definition sqrt_candZ (c : Z) : Z := BigZ.to_Z (sqrt_cand (BigZ.of_Z c)).
+
   (* inverse mod n by Fermat (n prime); 0 for 0 *)
   Definition inv_n (s : Z) : Z :=
     let n := cv_n C in
@@ -157,11 +160,11 @@ Proof. vm_compute. reflexivity. Qed.
 Example secp256k1_base_on_curve : on_curve Secp256k1 (BigZ.to_Z (cv_gx Secp256k1)) (BigZ.to_Z (cv_gy Secp256k1)) = true.
 Proof. vm_compute. reflexivity. Qed.
 
-Example p256_order : is_inf P256 (smul P256 (curve_n P256) (base P256)) = true
-                     /\ is_inf P256 (smul P256 (curve_n P256 - 1) (base P256)) = false.
+Example p256_order : is_inf (smul P256 (curve_n P256) (base P256)) = true
+                     /\ is_inf (smul P256 (curve_n P256 - 1) (base P256)) = false.
 Proof. vm_compute. split; reflexivity. Qed.
-Example secp256k1_order : is_inf Secp256k1 (smul Secp256k1 (curve_n Secp256k1) (base Secp256k1)) = true
-                     /\ is_inf Secp256k1 (smul Secp256k1 (curve_n Secp256k1 - 1) (base Secp256k1)) = false.
+Example secp256k1_order : is_inf (smul Secp256k1 (curve_n Secp256k1) (base Secp256k1)) = true
+                     /\ is_inf (smul Secp256k1 (curve_n Secp256k1 - 1) (base Secp256k1)) = false.
 Proof. vm_compute. split; reflexivity. Qed.
 
 (* [n-1]G = -G *)
